@@ -30,8 +30,8 @@ pub const MAX_OPS_BYTES: [u64; 2] = [40_000_000, 1_500_000_000];
 pub const PLAYOUT_MAX_PLIES: [usize; 2] = [120, 400];
 
 /// Visited positions per generator (G1, G2, G3) for each position-driven group.
-pub const POS_LEGAL: [[usize; 3]; 2] = [[8_000, 4_000, 4_000], [400_000, 150_000, 250_000]];
-pub const POS_MOVES: [[usize; 3]; 2] = [[2_000, 800, 800], [30_000, 10_000, 15_000]];
+pub const POS_LEGAL: [[usize; 3]; 2] = [[24_000, 10_000, 16_000], [400_000, 150_000, 250_000]];
+pub const POS_MOVES: [[usize; 3]; 2] = [[5_000, 2_000, 3_200], [30_000, 10_000, 15_000]];
 pub const POS_UNIV: [[usize; 3]; 2] = [[60, 30, 110], [1_000, 400, 2_000]];
 pub const POS_FEN: [[usize; 3]; 2] = [[3_000, 1_500, 1_500], [150_000, 60_000, 60_000]];
 pub const POS_SAN: [[usize; 3]; 2] = [[5_000, 2_000, 3_000], [250_000, 80_000, 150_000]];
